@@ -214,6 +214,45 @@ def run(ctx):
     ctx.attempt(lean_crosscheck, ctx, vals, table)
 
 
+RAW_VIEWS = ('as_os_str', 'as_encoded_bytes', 'to_string_lossy', 'to_str', 'as_bytes', 'as_str', 'display', 'to_string', 'into_os_string')
+
+
+def merge_order_raw(F, type_paths):
+    """(body, bb) of a comparison of two paths as raw bytes / strings inside the methods of a hand-written merge iterator"""
+    for tp in type_paths:
+        base = re.sub(r'<.*$', '', str(tp))
+        for pth, hb in list(F.bodies.items()) + list(getattr(F, 'inlined', {}).items()):
+            flat = re.sub(r"<[^<>]*>", '', pth)
+            if base.split('::')[-1] not in flat or '::tests' in pth:
+                continue
+            hfl = flow_of(hb)
+            for cb_, ct_ in hfl.calls(lambda c: c in ('std::cmp::Ord::cmp', 'std::cmp::PartialOrd::partial_cmp', 'std::cmp::PartialOrd::lt', 'std::cmp::PartialOrd::le',
+                                                     'std::cmp::PartialOrd::gt', 'std::cmp::PartialOrd::ge')):
+                tys = ' '.join(hb.local_ty(a['p']['l']) for a in ct_['args'] if a['k'] != 'const')
+                if not ('Path' in tys or 'OsStr' in tys or 'str' in tys or '[u8]' in tys):
+                    continue
+                raw = 'Path' not in tys or any(o.kind == 'call' and str(o.key).split('::')[-1] in RAW_VIEWS for a in ct_['args'] if a['k'] != 'const' for o in hfl.origins(a))
+                if raw:
+                    return (hb, cb_)
+    return None
+
+
+def merge_order_for(ctx, F, rid):
+    """the same statement as a rule of its own (run under C06 / C02): a hand-written iterator of the reconcile module that
+    merges the two scans must compare their keys as paths"""
+    types_ = sorted({re.sub(r'<.*$', '', i['self']) for i in F.impls if i['trait'].startswith('std::iter::Iterator') and i['self'].startswith('reconcile::')})
+    if not types_:
+        ctx.ok(rid, 'reconcile:no-merge-pass', 'reconcile looks every path of the union up in both scans (no merge pass)', None)
+        return
+    raw = merge_order_raw(F, types_)
+    if raw is not None:
+        ctx.bad(rid, 'reconcile:merge-order', 'reconcile walks the two scans in one merge pass and compares the heads as raw bytes / strings (the maps iterate in Path order, where `notes/list.md` < `notes.txt`): '
+                'around such a pair a path present on both sides is decided twice - a divergent edit is taken for delete-vs-modify and one version is lost, the recorded state is not the tree '
+                'that was left, and which directory is named first changes the outcome', term_loc(raw[0], raw[1]))
+    else:
+        ctx.undecided(rid, 'reconcile walks a hand-written iterator (%s): that every path is decided exactly once is not decided' % types_[0])
+
+
 def same_rule(ctx, F):
     b = F.body('reconcile::Fingerprint::same')
     if b is None:
@@ -313,8 +352,19 @@ def reconcile_rule(ctx, F):
     custom_iter = sorted({o.key for o in it_o if o.kind == 'call' and F.body(str(o.key)) is not None and
                           any(i['trait'].startswith('std::iter::Iterator') and re.sub(r'<.*$', '', i['self']) in re.sub(r'<.*$', '', F.body(str(o.key)).local_ty(0)) for i in F.impls)})
     custom_iter += sorted({callee_resolved(nt) for nb, nt in nexts if callee_resolved(nt) and F.body(callee_resolved(nt)) is not None})
+    # .. or a value of such a type built in place (its constructor spliced in)
+    for o in it_o:
+        if o.kind == 'agg' and any(i['trait'].startswith('std::iter::Iterator') and re.sub(r'<.*$', '', i['self']) == re.sub(r'::[^:]+$', '', str(o.key)) for i in F.impls):
+            custom_iter.append(re.sub(r'::[^:]+$', '', str(o.key)))
     if custom_iter:
-        ctx.undecided('C18.R4', 'reconcile walks a hand-written iterator (%s): that it yields every path of both sides exactly once, in order, is not decided' % custom_iter[0])
+        raw = merge_order_raw(F, custom_iter)
+        if raw is not None:
+            rb_, rbb_ = raw
+            ctx.bad('C18.R4', 'reconcile:merge-order', 'reconcile walks the two scans in one merge pass and compares the heads as raw bytes / strings: the maps iterate in Path (component) '
+                    'order, where `notes/list.md` < `notes.txt`, the bytes say the opposite - around such a pair the pass loses step and a path present on both sides is decided twice, '
+                    'once as "only A" and once as "only B" (a divergent edit is taken for delete-vs-modify, an untouched file for a delete)', term_loc(rb_, rbb_))
+        else:
+            ctx.undecided('C18.R4', 'reconcile walks a hand-written iterator (%s): that it yields every path of both sides exactly once, in order, is not decided' % custom_iter[0])
     ctx.check(custom_iter or (srcs == {a_i, b_i} and not restricting), 'C18.R4', 'reconcile:union', 'loop ranges over keys(a) U keys(b)',
               'reconcile does not iterate over the full union of both sides\' paths (key sources: params %s; restricting adaptors: %s)' % (
                   sorted(srcs), sorted(set(restricting))), loc(b, b.lo))
@@ -322,7 +372,7 @@ def reconcile_rule(ctx, F):
         good = True
         why = []
         pvar = None
-        for i, side in ((0, a_i), (1, b_i)):
+        for i, side in (() if custom_iter else ((0, a_i), (1, b_i))):
             os_ = fl.origins(ct['args'][i])
             gets = [o for o in os_ if o.kind == 'call' and o.key.endswith('::get')]
             if len(gets) != len(os_) or not gets:
